@@ -82,6 +82,7 @@ theorem step_removed_nonvol (c : Cfg) (s : St) (hv : c.volatile = false) (hs : c
   | nodeDone n => exact Or.inl hd
   | nodeFailed n => exact Or.inl hd
   | nodeReset n => exact Or.inl hd
+  | restart => exact Or.inl hd
   | removeEmpty =>
     left
     have f := foldRemove_frame (fun a => (c.namesOf a).isEmpty) s.dom s
@@ -92,7 +93,7 @@ theorem step_removed_nonvol (c : Cfg) (s : St) (hv : c.volatile = false) (hs : c
     have : (step c s .cacheMap).removed = s.removed := cacheMap_removed c s
     rw [this] at hd; exact hd
   | early upto =>
-    have hd' : d ∈ (if s.final then s else cleanTmp c s (min upto 2)).removed := hd
+    have hd' : d ∈ (if s.final then s else cleanTmp c s (min upto 3)).removed := hd
     split at hd'
     · exact Or.inl hd'
     · rcases cleanTmp_removed c s _ d hd' with h | h
